@@ -65,6 +65,8 @@ def run_batch(job):
                 cols = [r["id"], str(len(left) + len(r["read"]) + len(right)), str(len(left)), str(len(left) + len(r["read"])), "-" if k % 5 == 4 else "+", path,      # realign takes the path as written, whatever the strand column says
                         str(plen), str(r["ps"]), str(r["pe"]), str(nm), str(len(r["ops"])), str((k * 11) % 61)]
                 opt = ["tp:A:P", f"cg:Z:{cg}", "NM:i:2"] if k % 2 else [f"cg:Z:{cg}", "zd:Z:x1"]
+                if k % 4 == 3:      # "all other ... optional fields are unchanged": a free-text comment that ends in a blank, last on the line
+                    opt.append("co:Z:lane 7, trimmed ")
                 lines.append("\t".join(cols + opt))
         write_text(gaf, "\n".join(lines) + "\n")
         if zlib.crc32(("decoy" + str(bid)).encode()) % 3 == 0 and recs:
